@@ -160,6 +160,15 @@ def run(tier, seed):
                 with open(os.path.join(d, t.event_log)) as f_:
                     evs_ = yaml.safe_load(f_) or []
                 hops = [e for e in evs_ if e.get("event") == "hop"]; fr = [e for e in evs_ if e.get("event") == "frustrated_hop"]
+            tlast = float(snaps[-1]["time"])
+            # a child spawned with zero weight or on the last allowed step returns at once (C16: a limit already met at the start logs nothing):
+            # the hop that created it is on record but no snapshot follows it
+            trailing = [h for h in hops if float(h["time"]) >= tlast]
+            if trailing:
+                res.count("es-tree-children-that-never-stepped")
+                if len(trailing) > 1 or len(snaps) != len([s_ for s_ in snaps if float(s_["time"]) <= tlast]):
+                    tbad.append(dict(failed="even-sampling tree, trace %d: more than one hop event after the last snapshot" % ti, case=info)); break
+                hops = [h for h in hops if float(h["time"]) < tlast]
             o = dict(active=[int(s_["active"]) for s_ in snaps], times=[float(s_["time"]) for s_ in snaps], hops=hops, fr=fr, atts=[(0, False)] * len(fr))
             f = traj_oracle(o)
             res.count("es-tree-traces/" + backend); res.count("es-tree-hops", len(hops))
